@@ -4,6 +4,20 @@ use std::io::{Cursor, Read, Seek, SeekFrom, Write};
 
 type R = Option<Result<String, String>>;
 
+// a backing store whose bytes can be looked at while the compound file is alive
+#[derive(Clone)]
+struct SharedStore(std::rc::Rc<std::cell::RefCell<Cursor<Vec<u8>>>>);
+impl SharedStore {
+    fn new() -> SharedStore { SharedStore(std::rc::Rc::new(std::cell::RefCell::new(Cursor::new(Vec::new())))) }
+    fn snapshot(&self) -> Vec<u8> { self.0.borrow().get_ref().clone() }
+}
+impl Read for SharedStore { fn read(&mut self, b: &mut [u8]) -> std::io::Result<usize> { self.0.borrow_mut().read(b) } }
+impl Write for SharedStore {
+    fn write(&mut self, b: &[u8]) -> std::io::Result<usize> { self.0.borrow_mut().write(b) }
+    fn flush(&mut self) -> std::io::Result<()> { self.0.borrow_mut().flush() }
+}
+impl Seek for SharedStore { fn seek(&mut self, p: SeekFrom) -> std::io::Result<u64> { self.0.borrow_mut().seek(p) } }
+
 fn fresh(version: Version) -> Vec<u8> {
     let c = CompoundFile::create_with_version(version, Cursor::new(Vec::new())).unwrap();
     c.into_inner().into_inner()
@@ -454,6 +468,30 @@ pub fn run(name: &str) -> R {
                 }
             }
             Ok("30 rounds x 120 steps agree with the model".into())
+        }
+        // C10/C09: create_storage_all on a path with an invalid component is refused with InvalidInput - and must not have created
+        // the valid leading components first
+        "c10_create_storage_all_invalid_component" => {
+            for version in [Version::V3, Version::V4] {
+                let store = SharedStore::new();
+                let mut c = CompoundFile::create_with_version(version, store.clone()).unwrap();
+                c.create_storage("/keep").unwrap();
+                c.flush().unwrap();
+                let before = store.snapshot();
+                let r = c.create_storage_all("/new/deeper/bad:name/x");
+                match &r {
+                    Err(e) if e.kind() == std::io::ErrorKind::InvalidInput => {}
+                    other => return Some(Err(format!("{:?}: expected InvalidInput, got {:?}", version, other.as_ref().map_err(|e| e.to_string())))),
+                }
+                if c.exists("/new") || c.exists("/new/deeper") {
+                    return Some(Err(format!("{:?}: the refused call created /new{}", version, if c.exists("/new/deeper") { " and /new/deeper" } else { "" })));
+                }
+                c.flush().unwrap();
+                if store.snapshot() != before {
+                    return Some(Err(format!("{:?}: the refused call changed the file bytes", version)));
+                }
+            }
+            Ok("a path with an invalid component is refused before anything is created".into())
         }
         _ => return None,
     })
